@@ -365,3 +365,34 @@ def interpret(t: 'Tree', model: 'Model') -> 'Graph':
     invariant(0, lambda: forall_idx(epidata[:_i], lambda j, e: implies(first_entry(epidata, j), dict_get(epimap, e[0]) == e[1])))
     invariant(0, lambda: forall_keys(epimap, lambda k: triple_seen(k, epidata[:_i])))
     invariant(0, lambda: dict_wf(epimap))
+
+
+# ---- layout diagnostics (C14): stated on the real functions, executed natively -----------------------
+# (the reference meaning is vlib/pyvc/natives.py, written from the documentation; the frame contracts of
+# the same functions are in c_frames.py and are proved)
+
+@spec(uninterpreted=True, native="importlib.import_module('vlib.pyvc.natives').contexts(g)")
+def contexts_of(g: 'val') -> 'val':
+    """the node context of every triple by the documented stack discipline"""
+
+
+@spec(uninterpreted=True, native="importlib.import_module('vlib.pyvc.natives').inverted(g, triple)")
+def inverted_in(g: 'val', triple: 'val') -> 'val':
+    """whether the triple appears inverted, as documented"""
+
+
+@contract('penman.layout:node_contexts@functional', bounded=True,
+          why='try/except IndexError around a nested loop, [None] * n, item stores by index')
+def node_contexts_f(g: 'Graph') -> 'list':
+    ensures(len(result) == len(g.triples), label='one-per-triple')
+    # innermost open node while it is the triple's source (or target, for an edge); unknown from the
+    # first triple that does not fit, or once more nodes were closed than opened -- never an exception
+    ensures(result == contexts_of(g), label='stack-discipline')
+
+
+@contract('penman.layout:appears_inverted@functional', bounded=True,
+          why='zip over the result of node_contexts with early exit')
+def appears_inverted_f(g: 'Graph', triple: 'val') -> 'bool':
+    ensures(result == inverted_in(g, triple), label='as-documented')
+    # never for instance triples and attributes
+    ensures(implies(triple[1] == ':instance' or triple[2] not in g.variables(), result is False), label='edges-only')
